@@ -68,7 +68,7 @@ def check(run: Run) -> None:
     am = AstModel(run.project)
     run.rule("R18.1", "Absent is filtered before every emission: each emit_value / emit_assignment call on an element taken from children / items / pairs / meta is dominated by an is_absent test that skips it", 9)
     run.rule("R18.2", "emit_value raises on Absent first and maps None to the constant \"null\"; emit_meta returns no header when nothing is left", 3)
-    run.rule("R18.3", "tri-state dispatch in _apply_changes / _apply_mutations: every stored request value was tested not to be the DELETE sentinel and is wrapped by _normalize_value_for_ast; DELETE paths remove exactly the named key; META dict requests merge", 9)
+    run.rule("R18.3", "tri-state dispatch in _apply_changes / _apply_mutations: every stored request value was tested not to be the DELETE sentinel and is wrapped by _normalize_value_for_ast; DELETE paths remove exactly the named key; META dict requests merge", 6)
     run.rule("R18.4", "_normalize_value_for_ast is the identity on scalars, None and literal zones and wraps lists/dicts element-wise (so null stays null and a value request sets exactly that value)", 4)
     run.rule("R18.5", "frame: _apply_changes stores only into the assignment whose key equals the request key, or appends a new assignment with that key; no other node or field is written", 3)
     run.rule("R18.6", "every other implementation of 'apply changes' (CLI write --changes) is the tool's implementation (sibling agreement)", 1)
@@ -198,9 +198,30 @@ def check(run: Run) -> None:
         for n in walk_no_nested(fi.node):
             if isinstance(n, ast.Assign) and len(n.targets) == 1 and isinstance(n.targets[0], ast.Name) and names_in(n.value) & key_derived and not isinstance(n.value, ast.Call):
                 key_derived.add(n.targets[0].id)
+        # `existing = next((s for s in <doc>.sections if ... s.key == <request key>), None)`: the first assignment with the request key
+        found_by_key: set[str] = set()
+        for n in walk_no_nested(fi.node):
+            if isinstance(n, ast.Assign) and len(n.targets) == 1 and isinstance(n.targets[0], ast.Name) and isinstance(n.value, ast.Call) and is_name(n.value.func, "next") and len(n.value.args) == 2 and isinstance(n.value.args[0], ast.GeneratorExp) and isinstance(n.value.args[1], ast.Constant) and n.value.args[1].value is None:
+                ge = n.value.args[0]
+                g = ge.generators[0]
+                if len(ge.generators) == 1 and isinstance(g.target, ast.Name) and is_name(ge.elt, g.target.id) and ast.unparse(g.iter).endswith(".sections") and len(g.ifs) == 1:
+                    facts = g.ifs[0].values if isinstance(g.ifs[0], ast.BoolOp) and isinstance(g.ifs[0].op, ast.And) else [g.ifs[0]]
+                    if any(isinstance(c, ast.Compare) and len(c.ops) == 1 and isinstance(c.ops[0], ast.Eq) and ast.unparse(c.left) == f"{g.target.id}.key" and names_in(c.comparators[0]) & key_derived for c in facts):
+                        if sum(1 for m in walk_no_nested(fi.node) if isinstance(m, ast.Assign) and any(is_name(t, n.targets[0].id) for t in m.targets)) == 1:
+                            found_by_key.add(n.targets[0].id)
         writes = list(am.ast_writes(fi, res))
         cons = list(am.constructions(fi))
         n_store = 0
+        # delegation to the sibling that applies META mutations (checked by these same rules): only the request itself is handed over
+        if qual.endswith("_apply_changes"):
+            for c in walk_no_nested(fi.node):
+                if isinstance(c, ast.Call) and ast.unparse(c.func) == "self._apply_mutations" and len(c.args) == 2:
+                    a = c.args[1]
+                    ok = (isinstance(a, ast.Name) and a.id in req) or (isinstance(a, ast.Dict) and len(a.keys) == 1 and a.keys[0] is not None and bool(names_in(a.keys[0]) & key_derived) and names_in(a.keys[0]) <= key_derived | {"len"} and isinstance(a.values[0], ast.Name) and a.values[0].id in req)
+                    n_store += 1
+                    run.instance("R18.3", wm.loc(c), f"{qual}: `{norm(c)}` hands the request (and nothing else) to _apply_mutations", ok=ok)
+                    if not ok:
+                        run.violation("R18.3", wm, qual, c, "_apply_mutations is called with something that is not the request value (or one request key/value pair): fields the caller did not name would be written")
         for node, kind, fld in writes:
             st = node
             while st is not None and not isinstance(st, ast.stmt):
@@ -253,6 +274,9 @@ def check(run: Run) -> None:
                 # frame: store into `.value` needs key equality guard
                 if fld == "value":
                     keyeq = any(val is True and any(isinstance(c, ast.Compare) and isinstance(c.ops[0], ast.Eq) and ast.unparse(c.left).endswith(".key") and names_in(c.comparators[0]) & key_derived for c in ast.walk(t)) for t, val in conds)
+                    base = getattr(node, "value", None)
+                    if not keyeq and isinstance(base, ast.Name) and base.id in found_by_key:
+                        keyeq = True  # the object was selected by its key
                     run.instance("R18.5", wm.loc(node), f"{qual}: `{norm(st)}` only where <node>.key == request key", ok=keyeq)
                     if not keyeq:
                         run.violation("R18.5", wm, qual, st, "an assignment's value is overwritten without its key having been compared with the request key: unmentioned fields can change")
@@ -290,6 +314,12 @@ def check(run: Run) -> None:
                         kw = {k.arg: k.value for k in newnode.keywords}
                         ok = "key" in kw and isinstance(kw["key"], ast.Name) and kw["key"].id in key_derived and "value" in kw and isinstance(kw["value"], ast.Name) and kw["value"].id in normalized
                     notfound = any(isinstance(t, ast.UnaryOp) and isinstance(t.op, ast.Not) and val is True for t, val in conds)
+                    for t, val in conds:
+                        if isinstance(t, ast.Compare) and len(t.ops) == 1 and isinstance(t.left, ast.Name) and t.left.id in found_by_key and isinstance(t.comparators[0], ast.Constant) and t.comparators[0].value is None:
+                            if (isinstance(t.ops[0], ast.IsNot) and val is False) or (isinstance(t.ops[0], ast.Is) and val is True):
+                                notfound = True
+                        if isinstance(t, ast.Name) and t.id in found_by_key and val is False:
+                            notfound = True
                     run.instance("R18.5", wm.loc(node), f"{qual}: new assignment appended with the request key and wrapped value, only when no existing key matched", ok=ok and notfound)
                     if not (ok and notfound):
                         run.violation("R18.5", wm, qual, call, "a node is appended that is not Assignment(key=<request key>, value=<wrapped request value>) under `not found`")
@@ -304,7 +334,9 @@ def check(run: Run) -> None:
         # META dict request merges: the loop over <new_value>.items() exists and rebinding of doc.meta happens only for the sentinel (checked above)
         if qual.endswith("_apply_changes"):
             merges = [n for n in walk_no_nested(fi.node) if isinstance(n, ast.For) and isinstance(n.iter, ast.Call) and ast.unparse(n.iter.func).endswith(".items") and isinstance(n.iter.func, ast.Attribute) and isinstance(n.iter.func.value, ast.Name) and n.iter.func.value.id in req]
-            ok = bool(merges)
+            # ... or the whole request dict is handed to _apply_mutations, which loops over it (checked above for that function)
+            delegated = [c for c in walk_no_nested(fi.node) if isinstance(c, ast.Call) and ast.unparse(c.func) == "self._apply_mutations" and len(c.args) == 2 and isinstance(c.args[1], ast.Name) and c.args[1].id in req]
+            ok = bool(merges) or bool(delegated)
             run.instance("R18.3", wm.loc(fi.node), f"{qual}: a META{{...}} request is merged key by key (loop over the request dict)", ok=ok)
             if not ok:
                 run.violation("R18.3", wm, qual, "META dict merge loop", "a META{...} request is not merged key by key (unmentioned META fields would be dropped)")
